@@ -286,6 +286,102 @@ func runC14(c *runCtx) {
 	}
 	if gb != "" {
 		c14Wipe(c, gb)
+		c14Selected(c, gb)
+	}
+	c14ManyIndexed(c)
+}
+
+// c14Selected: `bug rm` next to a selected bug: removing something that is not there (a second `rm` of
+// the same id, a mistyped id) is an error and touches nothing — in particular not the selected bug.
+func c14Selected(c *runCtx, gb string) {
+	dir := scratch("c14sel")
+	if out, err := exec.Command("git", "init", "-q", dir).CombinedOutput(); err != nil {
+		panic(string(out))
+	}
+	must := func(args ...string) string {
+		out, err := runGB(gb, dir, args...)
+		if err != nil {
+			panic(fmt.Sprintf("git-bug %v: %s", args, out))
+		}
+		return out
+	}
+	must("user", "new", "-n", "Ann", "-e", "ann@example.com", "--non-interactive")
+	must("bug", "new", "-t", "stays selected", "-m", "m")
+	must("bug", "new", "-t", "goes away", "-m", "m")
+	ids := bugIdsCLI(gb, dir)
+	if len(ids) != 2 {
+		panic(fmt.Sprintf("two bugs expected: %v", ids))
+	}
+	show := func(id string) string { out, _ := runGB(gb, dir, "bug", "show", id); return out }
+	keep, gone := ids[0], ids[1]
+	if !strings.Contains(show(keep), "stays selected") {
+		keep, gone = gone, keep
+	}
+	must("bug", "select", keep)
+	must("bug", "rm", gone)
+	refsBefore := refsOfDir(dir)
+	for _, arg := range []string{gone, "ffffffffffff"} {
+		out, err := runGB(gb, dir, "bug", "rm", arg)
+		c.count(fmt.Sprintf("rm-of-absent-with-selection/failed=%v", err != nil))
+		if after := refsOfDir(dir); after != refsBefore || len(bugIdsCLI(gb, dir)) != 1 {
+			c.violation(-1, "C14/removed-another", fmt.Sprintf("`git-bug bug rm %s` (no such bug; another bug is selected) changed the repository: %d bugs left, answer: %s", arg, len(bugIdsCLI(gb, dir)), trunc(out, 120)), nil)
+			break
+		} else if err == nil {
+			c.violation(-1, "C14/removed-another", fmt.Sprintf("`git-bug bug rm %s` of a bug that does not exist reported success: %s", arg, trunc(out, 120)), nil)
+		}
+	}
+	os.RemoveAll(dir)
+}
+
+// c14ManyIndexed: more bugs than any default page of the search engine: after removing them — all at once
+// through the cache, or one by one through the entity API followed by a rebuild — no search finds them.
+func c14ManyIndexed(c *runCtx) {
+	for _, variant := range []string{"cache-remove-all", "entity-remove-then-rebuild"} {
+		repo, dir := newGoGit("c14many", false)
+		rc := mustCache(repo)
+		iden, err := rc.Identities().New("Ann", "a@example.com")
+		if err != nil {
+			panic(err)
+		}
+		rc.SetUserIdentity(iden)
+		const N = 14
+		var ids []entity.Id
+		for i := 0; i < N; i++ {
+			b, _, err := rc.Bugs().New(fmt.Sprintf("quokka number %d", i), "m")
+			if err != nil {
+				panic(err)
+			}
+			ids = append(ids, b.Id())
+		}
+		keep := 0
+		switch variant {
+		case "cache-remove-all":
+			if err := rc.Bugs().RemoveAll(); err != nil {
+				c.violation(-1, "C14/remove-failed", "RemoveAll through the cache failed: "+err.Error(), nil)
+			}
+		default:
+			rc.Close()
+			r2, err := openGoGit(dir)
+			if err != nil {
+				panic(err)
+			}
+			keep = 1
+			for _, id := range ids[keep:] {
+				if err := bug.Remove(r2, id); err != nil {
+					panic(err)
+				}
+			}
+			os.RemoveAll(filepath.Join(dir, ".git", gbNamespace, "cache")) // the next open rebuilds
+			rc = mustCache(r2)
+		}
+		q, _ := query.Parse("quokka")
+		hits, err := rc.Bugs().Query(q)
+		c.count("many-indexed/" + variant)
+		if err != nil || len(hits) != keep {
+			c.violation(-1, "C14/found-after-removal", fmt.Sprintf("%s of %d bugs out of %d: a full-text search still finds %d (expected %d; err %v)", variant, N-keep, N, len(hits), keep, err), nil)
+		}
+		rc.Close()
+		cleanupScratch()
 	}
 }
 
